@@ -11,7 +11,7 @@ import (
 
 func init() {
 	register("C16", propMeta{
-		Explanation: "E-PAIR + E-OWN + E-CONST on proxy/lib. O-1 slot pairing: tokens.get() is called only from Start and every path from it reaches runSession; over runSession's CFG every path from entry to a return carries exactly one release event, where a release event is a call of tokens.ret() or the hand-off edge 'case <-dataChan' of the final select (path enumeration with event counts, sensitive to repeated tests of one condition). The hand-off is verified separately: dataChan is closed only inside the OnDataChannel callback of makePeerConnectionFromOffer, which starts the handler goroutine on every path that closes it; the handler passed by runSession resolves to SnowflakeProxy.datachannelHandler, which releases exactly once (one deferred tokens.ret() in its entry block, no other). O-2 counter and semaphore move together: get adds +1 and sends, ret adds -1 and receives, both channel operations behind capacity != 0, ch = make(chan struct{}, capacity), no other access to ch or clients except the atomic load in count. O-3 reported load: the clients argument of the poll request is int((tokens.count()/8)*8) and is recomputed in the same loop iteration as the poll. O-4: on the exits after the peer connection was created the connection is closed before the slot is released. A missing or doubled release is a path in the source on which capacity is lost or exceeded.",
+		Explanation: "E-PAIR + E-OWN + E-CONST on proxy/lib. O-1 slot pairing: tokens.get() is called only from Start and every path from it reaches runSession; over runSession's CFG every path from entry to a return carries exactly one release event, where a release event is a call of tokens.ret() or the hand-off edge 'case <-dataChan' of the final select (path enumeration with event counts, sensitive to repeated tests of one condition). The hand-off is verified separately: dataChan is closed only inside the OnDataChannel callback of makePeerConnectionFromOffer, which starts the handler goroutine on every path that closes it; the handler passed by runSession resolves to SnowflakeProxy.datachannelHandler, which releases exactly once (one deferred tokens.ret() in its entry block, no other). O-2 counter and semaphore move together: get adds +1 and sends, ret adds -1 and receives, both channel operations behind capacity != 0, ch = make(chan struct{}, capacity), no other access to ch or clients except the atomic load in count. O-3 reported load: the clients argument of the poll request is int((tokens.count()/8)*8) and is recomputed in the same loop iteration as the poll. O-4: on the exits after the peer connection was created the connection is closed before the slot is released. A missing or doubled release is a path in the source on which capacity is lost or exceeded. Added after the third seeding round: O-5 the relay dial uses a dialer with a non-zero HandshakeTimeout (websocket.DefaultDialer or a literal that sets it), so a silent relay cannot hold the slot forever.",
 		NotDecided:  "the race 'timeout fires while the data channel opens' (needs a happens-before argument about pion callbacks), a client opening a second data channel, sessions run concurrently by embedding applications.",
 		Assumptions: []string{"pion invokes OnDataChannel at most once per peer connection in the analysed scenarios", "log.Fatalf paths are process exit and carry no obligation"},
 	}, runC16)
@@ -310,6 +310,7 @@ func runC16(c *Ctx) {
 
 	// ---------- O-2 counter and semaphore ----------
 	c.checkTokens()
+	c.checkRelayDialBounded()
 
 	// ---------- O-3 reported load ----------
 	rule3 := "O-3 reported load"
@@ -565,5 +566,59 @@ func (c *Ctx) checkTokens() {
 		if bad == 0 {
 			c.ok(rule, "tokens_t."+f.Name()+" accessed only by get/ret/count/newTokens", p.Pos(f.Pos()), "")
 		}
+	}
+}
+
+// checkRelayDialBounded: the session's slot is released by datachannelHandler's
+// deferred ret, i.e. only when the handler returns; the one blocking step before
+// the copy loop is the WebSocket dial, so the dialer must bound its handshake:
+// websocket.DefaultDialer (HandshakeTimeout 45 s) or a Dialer whose
+// HandshakeTimeout is set to a positive constant.
+func (c *Ctx) checkRelayDialBounded() {
+	p := c.P
+	rule := "O-5 the relay dial is bounded"
+	n := 0
+	for _, fn := range p.FnsIn("proxy/lib") {
+		for _, ci := range callsIn(fn) {
+			nm := calleeName(ci)
+			if !strings.HasSuffix(nm, "websocket.Dialer).Dial") && !strings.HasSuffix(nm, "websocket.Dialer).DialContext") {
+				continue
+			}
+			n++
+			recv := callArgs(ci)[0]
+			good, why := false, ""
+			// a load of the library's default dialer
+			if addr, ok := loadAddr(strip(recv)); ok {
+				if g, okg := addr.(*ssa.Global); okg && g.Name() == "DefaultDialer" && g.Pkg != nil && strings.HasSuffix(g.Pkg.Pkg.Path(), "gorilla/websocket") {
+					good, why = true, "websocket.DefaultDialer (45 s handshake timeout)"
+				}
+			}
+			if !good {
+				// a dialer of the repository: some store of a positive constant to its HandshakeTimeout, on the object used
+				var obj ssa.Value = strip(recv)
+				if a, ok := loadAddr(obj); ok {
+					obj = a
+				}
+				for _, f := range append(p.FnsIn("proxy/lib"), p.PkgInits()...) {
+					allInstrs(f, func(in ssa.Instruction) {
+						st, ok := in.(*ssa.Store)
+						if !ok {
+							return
+						}
+						base, fld, okf := fieldOfAddr(st.Addr)
+						if !okf || fld.Name() != "HandshakeTimeout" {
+							return
+						}
+						if k, okk := constInt(st.Val); okk && k > 0 && (base == obj || strip(base) == obj) {
+							good, why = true, "HandshakeTimeout set"
+						}
+					})
+				}
+			}
+			c.check(good, rule, p.FnName(fn)+" dials the relay with a bounded handshake", p.instrPos(ci), why, "the relay is dialled through a Dialer without a handshake timeout: a relay that accepts the TCP connection and never answers parks the handler for ever, its deferred tokens.ret() never runs and the slot is lost")
+		}
+	}
+	if n == 0 {
+		c.undecided(rule, "WebSocket dial in proxy/lib", "-", "none found")
 	}
 }
